@@ -1,8 +1,8 @@
 package rules
 
 import (
-	"go/constant"
 	"fmt"
+	"go/constant"
 	"go/token"
 	"go/types"
 
@@ -504,71 +504,81 @@ func RuleKPartChain(c *core.Ctx) {
 	// (order) reversal before the periods are stored
 	periodsF := p.Field(pkgDate, "Partition", "periods")
 	revOK := false
-	core.EachInstr(fn, func(ins ssa.Instruction) {
-		if call, ok := ins.(*ssa.Call); ok {
-			if callee := call.Call.StaticCallee(); callee != nil && core.PkgPathOf(core.OriginOf(callee)) == "slices" && core.BaseName(callee) == "Reverse" {
-				revOK = true
+	// the reversal is in the function that builds the periods or in one of the
+	// package's functions between the constructor and it
+	revFns := []*ssa.Function{fn}
+	for cand := range p.ReachLexical(ctor) {
+		if cand != fn && core.PkgPathOf(cand) == pkgDate && p.ReachLexical(cand)[fn] {
+			revFns = append(revFns, cand)
+		}
+	}
+	for _, rf := range revFns {
+		core.EachInstr(rf, func(ins ssa.Instruction) {
+			if call, ok := ins.(*ssa.Call); ok {
+				if callee := call.Call.StaticCallee(); callee != nil && core.PkgPathOf(core.OriginOf(callee)) == "slices" && core.BaseName(callee) == "Reverse" {
+					revOK = true
+				}
 			}
-		}
-	})
-	for h, body := range loops {
-		if h == l.header {
-			continue
-		}
-		// a swap loop: two index phis i (+1) and j (-1), test i < j, stores a[i] = old a[j], a[j] = old a[i]
-		iff, ok := h.Instrs[len(h.Instrs)-1].(*ssa.If)
-		if !ok {
-			continue
-		}
-		cmp, ok := iff.Cond.(*ssa.BinOp)
-		if !ok || cmp.Op != token.LSS {
-			continue
-		}
-		pi, ok1 := cmp.X.(*ssa.Phi)
-		pj, ok2 := cmp.Y.(*ssa.Phi)
-		if !ok1 || !ok2 {
-			continue
-		}
-		step := func(ph *ssa.Phi, op token.Token) bool {
-			for i, e := range ph.Edges {
-				if body[h.Preds[i]] {
-					bo, ok := e.(*ssa.BinOp)
-					if !ok || bo.Op != op || bo.X != ssa.Value(ph) || !constInt(bo.Y, 1) {
-						return false
+		})
+		for h, body := range loopsOf(rf) {
+			if rf == fn && h == l.header {
+				continue
+			}
+			// a swap loop: two index phis i (+1) and j (-1), test i < j, stores a[i] = old a[j], a[j] = old a[i]
+			iff, ok := h.Instrs[len(h.Instrs)-1].(*ssa.If)
+			if !ok {
+				continue
+			}
+			cmp, ok := iff.Cond.(*ssa.BinOp)
+			if !ok || cmp.Op != token.LSS {
+				continue
+			}
+			pi, ok1 := cmp.X.(*ssa.Phi)
+			pj, ok2 := cmp.Y.(*ssa.Phi)
+			if !ok1 || !ok2 {
+				continue
+			}
+			step := func(ph *ssa.Phi, op token.Token) bool {
+				for i, e := range ph.Edges {
+					if body[h.Preds[i]] {
+						bo, ok := e.(*ssa.BinOp)
+						if !ok || bo.Op != op || bo.X != ssa.Value(ph) || !constInt(bo.Y, 1) {
+							return false
+						}
+					}
+				}
+				return true
+			}
+			if !step(pi, token.ADD) || !step(pj, token.SUB) {
+				continue
+			}
+			swaps := 0
+			for b := range body {
+				for _, ins := range b.Instrs {
+					st, ok := ins.(*ssa.Store)
+					if !ok {
+						continue
+					}
+					ia, ok := st.Addr.(*ssa.IndexAddr)
+					if !ok {
+						continue
+					}
+					ld, ok := st.Val.(*ssa.UnOp)
+					if !ok {
+						continue
+					}
+					ib, ok := ld.X.(*ssa.IndexAddr)
+					if !ok || ib.X != ia.X {
+						continue
+					}
+					if (ia.Index == ssa.Value(pi) && ib.Index == ssa.Value(pj)) || (ia.Index == ssa.Value(pj) && ib.Index == ssa.Value(pi)) {
+						swaps++
 					}
 				}
 			}
-			return true
-		}
-		if !step(pi, token.ADD) || !step(pj, token.SUB) {
-			continue
-		}
-		swaps := 0
-		for b := range body {
-			for _, ins := range b.Instrs {
-				st, ok := ins.(*ssa.Store)
-				if !ok {
-					continue
-				}
-				ia, ok := st.Addr.(*ssa.IndexAddr)
-				if !ok {
-					continue
-				}
-				ld, ok := st.Val.(*ssa.UnOp)
-				if !ok {
-					continue
-				}
-				ib, ok := ld.X.(*ssa.IndexAddr)
-				if !ok || ib.X != ia.X {
-					continue
-				}
-				if (ia.Index == ssa.Value(pi) && ib.Index == ssa.Value(pj)) || (ia.Index == ssa.Value(pj) && ib.Index == ssa.Value(pi)) {
-					swaps++
-				}
+			if swaps == 2 {
+				revOK = true
 			}
-		}
-		if swaps == 2 {
-			revOK = true
 		}
 	}
 	stored := false
